@@ -210,9 +210,9 @@ func (fx *fsExplorer) model(in *Interp, site ssa.CallInstruction, name string, a
 		return Tuple{[]Val{kNil, fx.osError(in, "os.Stat", o, args[0])}}, true
 	case "os.Open", "os.Create", "os.OpenFile":
 		role := pathRole(args[0])
-		o := outcome(name, keyOf(args[0]), role)
+		tr := ""
 		if name == "os.OpenFile" && len(args) >= 2 {
-			tr := "?"
+			tr = "?"
 			if fl, ok := in.concretise(args[1]); ok {
 				tr = "keep"
 				if fl&int64(os.O_TRUNC) != 0 {
@@ -220,10 +220,19 @@ func (fx *fsExplorer) model(in *Interp, site ssa.CallInstruction, name string, a
 				}
 				if fl&int64(os.O_WRONLY|os.O_RDWR) == 0 {
 					tr = "readonly"
+				} else if fl&int64(os.O_CREATE) != 0 {
+					// os.Create IS os.OpenFile(O_RDWR|O_CREATE|O_TRUNC): one
+					// name for both, so that rows and keys do not depend on
+					// which spelling the code uses
+					name = "os.Create"
 				}
 			}
-			fx.os[len(fx.os)-1].Trunc = tr
 		}
+		o := outcome(name, keyOf(args[0]), role)
+		if tr == "" && name == "os.Create" {
+			tr = "trunc"
+		}
+		fx.os[len(fx.os)-1].Trunc = tr
 		in.effect(name, site.Pos(), args[0], kStr(o))
 		if o == "ok" {
 			if name != "os.Open" {
@@ -543,6 +552,12 @@ func fsFaultRules(c *Ctx, pr *PropertyRun, prop string) {
 		pr.Rules = append(pr.Rules, r)
 		runs := exploreFileServer(c, r)
 		c01Refusals(c, r, runs)
+		fr := NewRule("C01", "C01.no-5xx-without-fault", "a request during which nothing goes wrong in the operating system is never answered 5xx: a call that cannot succeed in the state the request itself observed or produced (rename onto a still existing collection, create on a collection, mkdir on an existing name) is the code's own doing (E2 fault exploration replayed over an abstract per-resource state)")
+		fr.Exhaustive = true
+		fr.Bounds = r.Bounds
+		pr.Rules = append(pr.Rules, fr)
+		c01Forced(c, fr, runs)
+		truncateRule(c, pr, "C01", runs)
 	case "C17":
 		r := NewRule("C17", "C17.no-host-path", "no response text, header or content name contains the host path, for every method, OS call and errno class (E2 fault exploration with a host-path taint bit on strings)")
 		r.Exhaustive = true
@@ -673,6 +688,71 @@ func c01Refusals(c *Ctx, r *RuleResult, runs []*fsRun) {
 	r.RequireRole("fault-row", "code-decided-refusal")
 }
 
+
+// truncateRule (C01, C05): every file opened for writing on behalf of PUT or
+// COPY is truncated.
+func truncateRule(c *Ctx, pr *PropertyRun, prop string, runs []*fsRun) {
+	tr := NewRule(prop, prop+".replace-truncates", "every file opened for writing on behalf of PUT or COPY is truncated (os.Create, or os.OpenFile with O_TRUNC): a shorter replacement must not keep the tail of the old content")
+	pr.Rules = append(pr.Rules, tr)
+	if runs == nil {
+		runs = exploreFileServer(c, tr)
+	}
+	seenT := map[string]bool{}
+	for _, run := range runs {
+		for _, o := range run.OS {
+			if (o.Call != "os.Create" && o.Call != "os.OpenFile") || o.Trunc == "readonly" {
+				continue
+			}
+			k := run.Method + "|" + o.Call + "[" + o.Role + "]|" + o.Pos
+			if seenT[k] {
+				continue
+			}
+			seenT[k] = true
+			tr.Role("write-open")
+			ok := o.Trunc == "trunc"
+			tr.Ob(ok)
+			if !ok {
+				why := "without O_TRUNC"
+				if o.Trunc == "?" {
+					why = "with flags that are not a compile-time constant"
+				}
+				tr.Violation("no-truncate|"+run.Method+"|"+o.Role, o.Pos, fmt.Sprintf("%s opens the %s for writing %s: replacing a file by shorter content leaves the tail of the old content in place (GET no longer returns what was PUT)", run.Method, o.Role, why), nil)
+			}
+		}
+	}
+	tr.RequireRole("write-open")
+}
+
+// c01Forced: a scenario in which nothing goes wrong in the operating system
+// must not be answered 5xx. A failing call that could not have succeeded in
+// the state the request itself observed or produced is the code's own doing.
+func c01Forced(c *Ctx, r *RuleResult, runs []*fsRun) {
+	seen := map[string]bool{}
+	for _, run := range runs {
+		_, feasible, faults, forced := run.replay()
+		if !feasible || faults > 0 || len(forced) == 0 {
+			continue
+		}
+		r.Role("forced-failure")
+		f := run.OS[forced[0].Idx]
+		k := fmt.Sprintf("%s|%s[%s]|%s", run.Method, f.Call, f.Role, f.Outcome)
+		if f.Role2 != "" {
+			k = fmt.Sprintf("%s|%s[%s->%s]|%s", run.Method, f.Call, f.Role, f.Role2, f.Outcome)
+		}
+		if seen[k+run.Status] {
+			continue
+		}
+		seen[k+run.Status] = true
+		ok := !strings.HasPrefix(run.Status, "5")
+		r.Ob(ok)
+		r.Sample(map[string]interface{}{"scenario": k, "status": run.Status, "why": forced[0].Why})
+		if !ok {
+			r.Violation("forced-failure|"+k+"|got="+run.Status, f.Pos, fmt.Sprintf("%s: %s is reached although %s, so it can only fail (%s) and the request is answered %s — with nothing wrong in the operating system. The statement requires the request to be carried out or refused with its 4xx code. Trace: %s", run.Method, f.Call, forced[0].Why, f.Outcome, run.Status, run.describe()), nil)
+		}
+	}
+	r.RequireRole("forced-failure")
+}
+
 func c17Leaks(c *Ctx, r *RuleResult, runs []*fsRun) {
 	seen := map[string]bool{}
 	for _, run := range runs {
@@ -706,7 +786,21 @@ func c17Leaks(c *Ctx, r *RuleResult, runs []*fsRun) {
 // per resource role and reports the roles whose final state differs from the
 // state observed before the first effect ("absent" -> "new-file" -> removed
 // again is no change; "file" -> truncated -> removed is).
+type forcedFail struct {
+	Idx int
+	Why string
+}
+
 func (run *fsRun) netChange() (changes []string, feasible bool, faults int) {
+	changes, feasible, faults, _ = run.replay()
+	return
+}
+
+// replay also reports the failing calls that could not have succeeded in the
+// state the request itself had observed or produced (forced failures: they
+// are the code's deterministic behaviour in that scenario, not injected
+// faults) — with the errno the operating system gives in that situation.
+func (run *fsRun) replay() (changes []string, feasible bool, faults int, forced []forcedFail) {
 	type st struct{ init, cur string }
 	states := map[string]*st{}
 	var order []string
@@ -732,7 +826,7 @@ func (run *fsRun) netChange() (changes []string, feasible bool, faults int) {
 		}
 		return ""
 	}
-	for _, o := range run.OS {
+	for idx, o := range run.OS {
 		switch o.Call {
 		case "os.Stat", "Walk.lstat":
 			s := get(o.Role)
@@ -757,7 +851,36 @@ func (run *fsRun) netChange() (changes []string, feasible bool, faults int) {
 			continue
 		}
 		if o.Outcome != "ok" {
-			faults++
+			why := ""
+			switch o.Call {
+			case "os.Rename":
+				a, b := kindOf(get(o.Role).cur), kindOf(get(o.Role2).cur)
+				switch {
+				case b == "dir" && (o.Outcome == "ENOTEMPTY" || o.Outcome == "EEXIST"):
+					why = "the " + o.Role2 + " still exists as a collection and os.Rename cannot replace a directory"
+				case a == "dir" && b == "file" && o.Outcome == "ENOTDIR":
+					why = "the " + o.Role + " is a collection and the " + o.Role2 + " still exists as a file"
+				case a == "ENOENT" && o.Outcome == "ENOENT":
+					why = "the " + o.Role + " does not exist"
+				}
+			case "os.Create", "os.OpenFile":
+				if kindOf(get(o.Role).cur) == "dir" && o.Outcome == "EISDIR" && o.Trunc != "readonly" {
+					why = "the " + o.Role + " is a collection"
+				}
+			case "os.Mkdir":
+				if k := kindOf(get(o.Role).cur); (k == "dir" || k == "file") && o.Outcome == "EEXIST" {
+					why = "the " + o.Role + " already exists"
+				}
+			case "os.Remove":
+				if kindOf(get(o.Role).cur) == "ENOENT" && o.Outcome == "ENOENT" {
+					why = "the " + o.Role + " does not exist"
+				}
+			}
+			if why != "" {
+				forced = append(forced, forcedFail{idx, why})
+			} else {
+				faults++
+			}
 			continue
 		}
 		switch o.Call {
@@ -812,6 +935,9 @@ func (run *fsRun) netChange() (changes []string, feasible bool, faults int) {
 			}
 		case "os.Rename":
 			a, b := get(o.Role), get(o.Role2)
+			if kb := kindOf(b.cur); kb == "dir" || (kb == "file" && kindOf(a.cur) == "dir") || kindOf(a.cur) == "ENOENT" {
+				feasible = false // os.Rename cannot replace a directory, nor a file by a directory, nor move what is not there
+			}
 			touched[o.Role], touched[o.Role2] = true, true
 			switch a.cur {
 			case "new-file", "new-dir":
@@ -833,7 +959,7 @@ func (run *fsRun) netChange() (changes []string, feasible bool, faults int) {
 		}
 		changes = append(changes, role+":"+s.init+"->"+s.cur)
 	}
-	return changes, feasible, faults
+	return changes, feasible, faults, forced
 }
 
 func c02Traces(c *Ctx, r *RuleResult, runs []*fsRun) {
